@@ -417,10 +417,31 @@ class Agg:
         ("eval::each_lhs_compare", r"(?:(?:rules::)?eval::)?each_lhs_compare", ""),
     ]
 
+    CALLABLE_IMPL = r"(?:rules::)?eval_context::<impl at guard/src/rules/eval_context\.rs:\d+:\d+: \d+:\d+>::call"
+    # built-in functions that index their argument lists: (label, impl type, FunctionName variant)
+    ARG_INDEX_FUNCS = [("SubstringFunction::call", "SubstringFunction", "Substring"), ("JoinFunction::call", "JoinFunction", "Join"),
+                       ("RegexReplaceFunction::call", "RegexReplaceFunction", "RegexReplace")]
+
+    def expected_args(self, variant):
+        """arity of a built-in from get_expected_number_of_args (the parser rejects calls with another number of arguments)"""
+        t = open(os.path.join(self.src, "guard", "src", "rules", "eval_context.rs")).read()
+        m = re.search(r"fn get_expected_number_of_args\(&self\) -> usize \{\s*match self \{(.*?)\n        \}", t, re.S)
+        if not m:
+            raise Untranslatable("get_expected_number_of_args not found")
+        for arm in re.finditer(r"((?:\|?\s*FunctionName::\w+\s*)+)=>\s*(\d+)", m.group(1)):
+            if re.search(r"FunctionName::" + variant + r"\b", arm.group(1)):
+                return int(arm.group(2))
+        raise Untranslatable(f"arity of {variant} not found")
+
     def index_sites(self):
-        for label, fre, a1 in self.INDEX_FUNCS:
+        sites = [(l, f, a1, None) for l, f, a1 in self.INDEX_FUNCS] + \
+                [(l, self.CALLABLE_IMPL, r"_1: &(?:eval_context::)?" + ty + ",", var) for l, ty, var in self.ARG_INDEX_FUNCS]
+        for label, fre, a1, arity_of in sites:
             try:
                 ex = self.exec(fre, {}, log=("index",), unroll=1, first_arg_re=a1, max_paths=20000)
+                if arity_of:
+                    # documented precondition: the parser has checked the number of arguments
+                    ex.side.append(f"(= {ex.len_of(ex.arg_env['_2'])} {self.expected_args(arity_of)})")
             except Untranslatable as e:
                 self.ob.items.append({"obligation": f"{label}/index-in-bounds", "describe": str(e), "verdicts": {},
                                       "status": "inconclusive", "model": None})
@@ -433,14 +454,48 @@ class Agg:
                     if len(e[2]) == 2 and e[2][1][0] == "int":
                         n += 1
                         bad.append(f"(and {pc_term(p.pc)} (not (< {e[2][1][1]} {ex.len_of(e[2][0])})))")
+                for e in p.events:
+                    if e[0] == "assert" and "index out of bounds" in e[1]:      # `slice[i]` bounds check
+                        n += 1
+                        bad.append(f"(and {pc_term(e[2])} {e[3]})")
             # the index event is logged when the call is made, so the path condition up to that point is what guards it:
             # use only the prefix of the path condition that existed at the call (events carry no pc; conservative: whole pc)
             c = self.discharge(f"{label}/index-in-bounds", ex, bad,
                                f"{label}: every `v[i]` on every path ({n} index events) has i < len(v) (len / is_empty / index modelled per value)")
-            if c:
+            if c and arity_of:
+                c["replay"] = self.replay_empty_arg(label)
+                c["reproduced"] = c["replay"].get("reproduced", False)
+                self.candidates.append(c)
+            elif c:
                 c["replay"] = self.replay_in_empty(c) if "contained_in" in label else {"reproduced": False}
                 c["reproduced"] = c["replay"].get("reproduced", False)
                 self.candidates.append(c)
+
+    def replay_empty_arg(self, label):
+        """a built-in whose second / third argument is a query that selects nothing"""
+        exe = self.cli()
+        if not exe:
+            return {"reproduced": False, "note": "native build failed"}
+        recipes = {"SubstringFunction::call": ['let x = substring(Name, L[ this == 99 ], 2)', 'let x = substring(Name, 0, L[ this == 99 ])'],
+                   "JoinFunction::call": ['let x = join(L, S[ this == "q" ])'],
+                   "RegexReplaceFunction::call": ['let x = regex_replace(Name, S[ this == "q" ], "b")', 'let x = regex_replace(Name, "a", S[ this == "q" ])']}
+        data = '{"Name": "abc",\n "L": [1, 2], "S": ["a"]}\n'
+        for let in recipes.get(label, []):
+            rules = let + '\nrule t {\n  %x == "a"\n}\n'
+            d = tempfile.mkdtemp(prefix="cfnverif_replay_")
+            try:
+                open(os.path.join(d, "r.guard"), "w").write(rules)
+                open(os.path.join(d, "d.json"), "w").write(data)
+                env = dict(os.environ)
+                env["RUST_BACKTRACE"] = "0"
+                p = subprocess.run([exe, "validate", "-r", os.path.join(d, "r.guard"), "-d", os.path.join(d, "d.json")],
+                                   stdout=subprocess.PIPE, stderr=subprocess.STDOUT, text=True, timeout=120, env=env)
+            finally:
+                shutil.rmtree(d, ignore_errors=True)
+            if p.returncode == 101 and "index out of bounds" in p.stdout:
+                return {"reproduced": True, "rules_file": rules, "data": data, "exit": 101,
+                        "panic": [l for l in p.stdout.splitlines() if "panicked" in l or "index out of bounds" in l][:2]}
+        return {"reproduced": False}
 
     def replay_in_empty(self, cand):
         exe = self.cli()
